@@ -32,6 +32,7 @@ ASSUMPTIONS = ['str.format / f-strings / string.Template / html.escape move opaq
 
 NAMES = ['plain', 'say "hi"', '{x}', '<b>bold</b>', '$src and $styles', 'a:b:c', 'ünï-ж', "it's", '}}', '100% {{done}}']
 D0 = _real.datetime(2100, 1, 4)
+DPAST = _real.datetime(2001, 3, 5)
 # (name: 'sym' or index into NAMES, has spent, section, style attributes): every value occurs
 TASK_PROFILES = [('sym', 1, 0, 0), (1, 0, 1, 1), (2, 1, 2, 0), (3, 0, 0, 1), (4, 1, 1, 0), (5, 1, 0, 0), (6, 0, 2, 1), (7, 1, 0, 0),
                  (8, 0, 0, 0), (9, 1, 1, 1), (0, 1, 0, 0)]
@@ -60,15 +61,18 @@ def build(cfg):
         parent[i] = [-1, i - 1][choose(f'par{i}', 2)]
     names, tasks = [], []
     for i in range(n):
-        nk, hassp, sec, sty = TASK_PROFILES[choose(f'tp{i}', len(TASK_PROFILES))]
+        tps = cfg.get('task_profiles', TASK_PROFILES)
+        nk, hassp, sec, sty = tps[choose(f'tp{i}', len(tps))]
         nm = fresh_str(f'name{i}') if nk == 'sym' else NAMES[nk]
         names.append(nm)
         leaf = not any(parent[c] == i for c in range(n))
         ms = fresh_bool(f'ms{i}') if leaf and cfg.get('sym_milestone', True) else False
         est = fresh_real(f'est{i}', 0, 40)
         sp = fresh_real(f'spent{i}', 0, 60) if hassp else None
+        # tasks alternate between the far future and the past (a reached milestone / finished task renders differently)
+        base = D0 if (i + (0 if hassp else 1)) % 2 == 0 else DPAST
         t = Task(10 + i, nm, resource='r', milestone=ms, estimate=est, spent=sp,
-                 start=D0 + _real.timedelta(days=i, hours=8 + i, minutes=5), end=D0 + _real.timedelta(days=i + 2, hours=17, minutes=30))
+                 start=base + _real.timedelta(days=i, hours=8 + i, minutes=5), end=base + _real.timedelta(days=i + 2, hours=17, minutes=30))
         if sec:
             t.gantt_section = ['-', 'Phase A', 'Phase B'][sec]
         if sty:
@@ -165,7 +169,7 @@ def h(cfg):
                 check(len(parts) == 2, 'C19 network: name text adds or alters an edge', detail=ln[:50])
                 ms_ = re.match(r'^  (\d+)\{\{', parts[0])
                 mt = re.match(r'^(-?\d+)\{\{', parts[-1])
-                src_id = 'start' if parts[0] == '  0((Start))' else (int(ms_.group(1)) if ms_ else None)
+                src_id = 'start' if 'Start' in parts[0] and not ms_ else (int(ms_.group(1)) if ms_ else None)
                 edges.append((src_id, int(mt.group(1)) if mt else None))
             exp = []
             for t in order:
@@ -213,5 +217,5 @@ def h(cfg):
 
 def harnesses(tier):
     if tier == 'quick':
-        return [{'name': 'render-n2', 'fn': h, 'cfg': {'n': 2}}, {'name': 'render-n3-structure', 'fn': h, 'cfg': {'n': 3, 'sym_milestone': False}}]
-    return [{'name': 'render-n3', 'fn': h, 'cfg': {'n': 3}}]
+        return [{'name': 'render-n2', 'fn': h, 'cfg': {'n': 2}}, {'name': 'render-n3-structure', 'fn': h, 'cfg': {'n': 3, 'sym_milestone': False, 'task_profiles': [('sym', 1, 0, 0), (2, 0, 1, 1), (9, 1, 2, 0)]}}]
+    return [{'name': 'render-n3', 'fn': h, 'cfg': {'n': 3, 'task_profiles': TASK_PROFILES[:6]}}, {'name': 'render-n2', 'fn': h, 'cfg': {'n': 2}}]
